@@ -116,9 +116,12 @@ def classify(vals, host, got):
 
 
 def run(ctx):
-    A.mc(ctx, 'MC_DomainAcl.tla', 'MC_DomainAcl.cfg', timeout=1500)
+    # quick: ordered triples over labels {b, a-b}, ordered pairs over {a, b, a-b, ab}; thorough adds triples over {a, b, a-b}
+    # and {a, b, a-b, ab} and 3-label values over {b, a-b}
+    A.mc(ctx, 'MC_DomainAcl.tla', 'MC_DomainAcl_small.cfg', timeout=1500)
     A.mc(ctx, 'MC_DomainAcl.tla', 'MC_DomainAcl_pairs.cfg', timeout=1500)
     if ctx.thorough:
+        A.mc(ctx, 'MC_DomainAcl.tla', 'MC_DomainAcl.cfg', timeout=3000)
         A.mc(ctx, 'MC_DomainAcl.tla', 'MC_DomainAcl_long.cfg', timeout=3000)
         A.mc(ctx, 'MC_DomainAcl.tla', 'MC_DomainAcl_deep.cfg', timeout=6000)
     exe = A.build_driver(ctx)
